@@ -11,7 +11,7 @@
 #include "columns.h"
 #define NV_MAXF 100000
 #define NV_MAXC 1099511627776L       /* class count / number of components of one feature (2^40, as in update.h) */
-struct nv_t2i { int64_t rows, cols; int64_t grow; int64_t c[5]; };   /* feature_mapping_t = tensor_mem_t<tensor_size_t, 2>: dimensions + the cells of one ghost row */
+struct nv_t2i { int64_t rows, cols; int64_t grow; int64_t c[10]; };   /* feature_mapping_t = tensor_mem_t<tensor_size_t, 2>: dimensions + the cells of one ghost row */
 struct nv_dsrc { int64_t features; };                               /* datasource_t: number of features; descriptors answered at a ghost index */
 struct nv_egen { const struct nv_dsrc* m_datasource; struct nv_t2i m_feature_mapping; };   /* base_elemwise_generator_t (+ generator_t::m_datasource) */
 struct nv_procret { int64_t colsize; };                             /* std::tuple<operator, colsize>: the operator is the flatten targets' business */
@@ -25,7 +25,7 @@ int64_t nv_other_cell;
 static const int64_t* nv_t2i_at(const struct nv_t2i* t, int64_t i, int64_t j)
 {
   __CPROVER_assert(0 <= i && i < t->rows && 0 <= j && j < t->cols, "tensor(i, j): indices inside the dimensions");
-  if (i == t->grow && 0 <= j && j < 5) return &t->c[j];
+  if (i == t->grow && 0 <= j && j < 10) return &t->c[j];
   nv_other_cell = nv_nondet_int64_t();
   return &nv_other_cell;
 }
@@ -73,4 +73,30 @@ static int64_t nv_min_i64(int64_t a, int64_t b) { return b < a ? b : a; }
   __CPROVER_assume(0 <= gen.m_feature_mapping.rows && gen.m_feature_mapping.rows <= NV_MAXF); gen.m_feature_mapping.cols = 5; \
   __CPROVER_assume(0 <= i && i < gen.m_feature_mapping.rows);      /* a valid generator-local feature index */ \
   __CPROVER_assume(NV_FIT_ROW(&gen, i, kind)); \
+  nv_thrown = 0;
+
+/* ---- pairwise generators (base_pairwise_generator_t): the mapping has 2 x 5 columns (original1, classes1, dims1, original2, ...) ---- */
+/* datasource_t::feature(i) bound to a reference: the address of the descriptor (ghost feature, or an arbitrary other one) */
+struct nv_feature nv_otherF;
+static const struct nv_feature* nv_dsrc_feature_ref(const struct nv_dsrc* d, int64_t i)
+{
+  __CPROVER_assert(0 <= i && i < d->features, "datasource.feature(i): a valid feature index of the data source");
+  if (i == nv_go) return &nv_F;
+  struct nv_feature any; nv_otherF = any;
+  return &nv_otherF;
+}
+/* feature_t{name}: a descriptor with arbitrary contents (the name is not modelled; scalar() / sclass() / .. overwrite what matters) */
+static struct nv_feature nv_feature_named(void) { struct nv_feature f; return f; }
+/* m_labels.clear() inside feature_t: classes() = m_labels.size() becomes 0 */
+static void nv_feature_clear_labels(struct nv_feature* f) { f->m_classes = 0; }
+#define NV_PAIR_SETUP \
+  struct nv_egen gen; struct nv_dsrc ds; int64_t i; \
+  __CPROVER_assume(0 <= ds.features && ds.features <= NV_MAXF); \
+  gen.m_datasource = &ds; \
+  __CPROVER_assume(0 <= gen.m_feature_mapping.rows && gen.m_feature_mapping.rows <= NV_MAXF); gen.m_feature_mapping.cols = 10; \
+  __CPROVER_assume(0 <= i && i < gen.m_feature_mapping.rows && gen.m_feature_mapping.grow == i); \
+  /* fit() invariant at row i (make_pairwise of two select_<kind> tables): both originals are features of the data source */ \
+  __CPROVER_assume(0 <= gen.m_feature_mapping.c[0] && gen.m_feature_mapping.c[0] < ds.features && 0 <= gen.m_feature_mapping.c[5] && gen.m_feature_mapping.c[5] < ds.features); \
+  /* nano::size of the dimensions (1, 1, 1) is 1 (C16 proves nano::size = product of the extents) */ \
+  __CPROVER_assume(__CPROVER_uninterpreted_nv_prod3(1, 1, 1) == 1); \
   nv_thrown = 0;
